@@ -103,6 +103,7 @@ type VC struct {
 	declared map[string]bool
 	heaps  map[string]*heapInfo
 	epochBound map[int]string
+	epochBlk   map[int]int
 	nfresh int
 	strLits map[string]string
 	usesStrings bool
@@ -121,6 +122,10 @@ type VC struct {
 	idxUses    map[string][]string // during pass 1 of a quantifier: bound variable -> slice terms it indexes
 	qvarNames  map[string]string // SMT binder name -> source name
 	plainUses  map[string]bool
+	versions   map[string]string
+	paramAlias map[string]ssa.Value // contract parameter names of an interface-level contract -> this method's parameters
+	tag        string               // suffix for obligation names when a function is verified against several contracts
+	autoDrop   map[string]bool      // inferred candidate invariants refuted in an earlier Houdini round
 	lineBlk    []int          // block index each line was generated in (-1: function entry / global)
 	curBlk     int
 	ancestors  map[int]map[int]bool // block -> set of blocks that can reach it (forward edges only), incl. itself
@@ -128,7 +133,7 @@ type VC struct {
 
 func newVC(eng *Engine, fn *ssa.Function) *VC {
 	return &VC{eng: eng, fn: fn, fkey: funcKey(fn), sorts: newSorts(), declared: map[string]bool{}, heaps: map[string]*heapInfo{},
-		epochBound: map[int]string{}, strLits: map[string]string{}, oblNames: map[string]int{}, vals: map[ssa.Value]Val{},
+		epochBound: map[int]string{}, epochBlk: map[int]int{}, strLits: map[string]string{}, oblNames: map[string]int{}, vals: map[ssa.Value]Val{},
 		locs: map[ssa.Value]*Loc{}, tuples: map[ssa.Value][]Val{}, tids: map[string]int{}, qvarNames: map[string]string{}, curBlk: -1, ancestors: map[int]map[int]bool{}}
 }
 
@@ -205,7 +210,7 @@ func (vc *VC) unsupported(format string, a ...interface{}) {
 
 // oblige records a proof obligation: under the assumptions so far, cond ⇒ goal.
 func (vc *VC) oblige(name, kind, cond, goal, detail string, pos string) *Obligation {
-	full := vc.fkey + "#" + name
+	full := vc.fkey + vc.tag + "#" + name
 	vc.oblNames[full]++
 	if n := vc.oblNames[full]; n > 1 {
 		full = fmt.Sprintf("%s~%d", full, n)
@@ -226,7 +231,7 @@ func (vc *VC) oblige(name, kind, cond, goal, detail string, pos string) *Obligat
 
 // probe records a satisfiability probe (vacuity guard): assumptions ∧ cond must be sat.
 func (vc *VC) probe(name, cond, detail string) {
-	full := vc.fkey + "#" + name
+	full := vc.fkey + vc.tag + "#" + name
 	o := &Obligation{Name: full, Kind: "vacuity", Func: vc.fkey, Detail: detail, ExpectSat: true, fn: vc.fn, vc: vc, Props: vc.props}
 	o.Script = vc.relevantLines() + "\n(assert " + cond + ")\n"
 	vc.obls = append(vc.obls, o)
@@ -300,6 +305,7 @@ func (vc *VC) heapDecl(hi *heapInfo) *heapInfo {
 		hi.sort = "(Array Int (Array " + ks + " " + hi.valSort + "))"
 	}
 	vc.heaps[hi.name] = hi
+	vc.eng.registerHeap(hi)
 	return hi
 }
 
@@ -393,7 +399,18 @@ func (vc *VC) heapGet(st *State, hi *heapInfo) string {
 		return t
 	}
 	term := fmt.Sprintf("%s_e%d", hi.name, st.epoch)
-	vc.freshHeapVersion(hi, term, vc.epochBound[st.epoch])
+	if !vc.declared[term] {
+		// the version belongs to the block that created the epoch (function entry for epoch 0), not to the
+		// block that happens to touch it first
+		save := vc.curBlk
+		if b, ok := vc.epochBlk[st.epoch]; ok {
+			vc.curBlk = b
+		} else {
+			vc.curBlk = -1
+		}
+		vc.freshHeapVersion(hi, term, vc.epochBound[st.epoch])
+		vc.curBlk = save
+	}
 	return term
 }
 func (vc *VC) heapSet(st *State, hi *heapInfo, term string) {
@@ -414,6 +431,7 @@ func (vc *VC) havocAllHeap(st *State) {
 	vc.nfresh++
 	st.epoch = vc.nfresh
 	vc.epochBound[st.epoch] = nr
+	vc.epochBlk[st.epoch] = vc.curBlk
 }
 
 func (vc *VC) allocRef(st *State) string {
@@ -646,4 +664,19 @@ func truncate(s string, n int) string {
 		return s[:n] + "..."
 	}
 	return s
+}
+
+// constArray: an array whose every cell holds the zero value of the element sort. cvc5 only accepts value
+// literals in (as const ...), so zero values mentioning uninterpreted constants get a quantified definition.
+func (vc *VC) constArray(elemSort, zero string) string {
+	if !strings.Contains(zero, "gs.empty") && !strings.Contains(zero, "flt.zero") {
+		return "((as const (Array Int " + elemSort + ")) " + zero + ")"
+	}
+	name := "zarr_" + sanitize(elemSort)
+	if !vc.declared[name] {
+		vc.declared[name] = true
+		vc.decls = append(vc.decls, fmt.Sprintf("(declare-const %s (Array Int %s))", name, elemSort))
+		vc.decls = append(vc.decls, fmt.Sprintf("(assert (forall ((i! Int)) (! (= (select %s i!) %s) :pattern ((select %s i!)))))", name, zero, name))
+	}
+	return name
 }
